@@ -1,5 +1,6 @@
 use super::{
-    parse_delimited, parse_token, Ident, Lookahead, PackageName, Parse, ParseResult, Peek,
+    parse_delimited, parse_nested, parse_token, Ident, Lookahead, PackageName, Parse, ParseResult,
+    Peek,
 };
 use crate::lexer::{Lexer, Token};
 use miette::SourceSpan;
@@ -19,6 +20,12 @@ pub struct Expr<'a> {
 
 impl<'a> Parse<'a> for Expr<'a> {
     fn parse(lexer: &mut Lexer<'a>) -> ParseResult<Self> {
+        parse_nested(lexer, Self::parse_expr)
+    }
+}
+
+impl<'a> Expr<'a> {
+    fn parse_expr(lexer: &mut Lexer<'a>) -> ParseResult<Self> {
         let primary = PrimaryExpr::parse(lexer)?;
 
         // Currently, only the access expressions are supported for postfix expressions.
